@@ -1,5 +1,6 @@
 """C09 — runs keep exact generation bookkeeping, budget and generational elitism."""
 import collections
+import math
 
 from .. import gen, hooks, insitu, oracles
 from ..hooks import Patches
@@ -86,12 +87,12 @@ def run_case(ctx, name, params):
         pt.wrap_attr(Selector, "pop_acceptance", mk_acc)
         try:
             extra_ = {}
-            if fail_rate and algo == "nsga2" and r.random() < 0.5:
+            if fail_rate and algo == "nsga2" and r.random() < 0.7:
                 # coarse declared precision: designs re-drawn after a failure lie on a grid and can coincide -- also with each other
                 prm_ = []
-                # the grid must be able to carry N distinct designs comfortably (12N..40N grid points), otherwise "N designs, none
+                # the grid must be able to carry N distinct designs comfortably (at least 3N..6N grid points), otherwise "N designs, none
                 # repeated" cannot be satisfied by any implementation
-                k_ = max(2, int(round((r.uniform(12, 40) * N) ** (1.0 / setup["n"]))))
+                k_ = max(2, int(math.ceil((r.uniform(3, 6) * N) ** (1.0 / setup["n"]))))
                 for i_, (lb, ub) in enumerate(setup["bounds"]):
                     prm_.append({"name": "x%d" % i_, "bounds": [lb, ub], "precision": (ub - lb) / k_})
                 extra_["params"] = prm_
